@@ -18,10 +18,10 @@ CONSTANTS Deep,     \* FALSE: copy.copy of the root (the code today); TRUE: ever
 VARIABLES t, u, ign, heap, todo, pc
 vars == <<t, u, ign, heap, todo, pc>>
 
-KeyOrder == <<"a", "b">>
+KeyOrder == <<"a", "ab">>
 U    == CASE Size = "tiny" -> RootU({"a"}, {None, VInt(1)}, 2)
-          [] Size = "std"  -> RootU({"a", "b"}, {None, VInt(1)}, 2)
-          [] Size = "wide" -> RootU({"a", "b"}, {None, VInt(1), VStr("s")}, 2)
+          [] Size = "std"  -> RootU({"a", "ab"}, {None, VInt(1)}, 2)
+          [] Size = "wide" -> RootU({"a", "ab"}, {None, VInt(1), VStr("s")}, 2)
 IgnU == IF Size = "wide" THEN {{}, {None}} ELSE {{}}
 
 IsRef(c) == c[1] = "ref"
